@@ -43,6 +43,24 @@ pub fn run(op: &str, args: &[&str]) -> Option<String> {
             let tx: Transaction = crate::ops_codec::parse_all(toks)?;
             Some(format!("OK {} {}", show_hex(&tx.hash().0), show_hex(&tx.prefix.hash().0)))
         }
+        ("trait_h2s", [t, h]) => {
+            let b = unhex(h)?;
+            Some(match *t {
+                "pk" => match monero::PublicKey::from_slice(&b) {
+                    Ok(k) => format!("OK {}", show_hex(&k.hash_to_scalar().to_bytes())),
+                    Err(_) => "ERR".into(),
+                },
+                "tx" => match deserialize::<Transaction>(&b) {
+                    Ok(x) => format!("OK {}", show_hex(&x.hash_to_scalar().to_bytes())),
+                    Err(_) => "ERR".into(),
+                },
+                "prefix" => match deserialize::<monero::TransactionPrefix>(&b) {
+                    Ok(x) => format!("OK {}", show_hex(&x.hash_to_scalar().to_bytes())),
+                    Err(_) => "ERR".into(),
+                },
+                _ => return None,
+            })
+        }
         ("blockfull", [h]) => {
             let b = unhex(h)?;
             Some(match deserialize::<monero::Block>(&b) {
